@@ -36,6 +36,17 @@ class Schema:
                         merged["val"] = dict(bfields[f["name"]].get("val") or {}, **(f["att"].get("val") or {}))
                     f["att"] = merged
 
+        # validations given in the HTTP mapping (Param("id", func() { Pattern(...) })) hold on top of the attribute's own
+        for sv in design.get("services", []):
+            for m in sv.get("methods", []):
+                pay = (m.get("payload") or {})
+                fields = {f["name"]: f for f in ((pay.get("type") or {}).get("object") or [])}
+                for key in ("params", "headers", "cookies"):
+                    for mp in (m.get("http") or {}).get(key) or []:
+                        if mp.get("val") and mp["attr"] in fields:
+                            fa = fields[mp["attr"]]["att"]
+                            fa["val"] = dict(fa.get("val") or {}, **mp["val"])
+
     def resolve(self, att):
         seen = 0
         while att and att.get("type", {}).get("ref") and seen < 10:
